@@ -1,6 +1,7 @@
 package isaacdatabase
 
 import (
+	"bytes"
 	"context"
 	"math"
 
@@ -364,7 +365,19 @@ func (db *LeveldbPermanent) mergeTempDatabaseFromLeveldb(ctx context.Context, te
 	batch := pst.NewBatch()
 	defer batch.Reset()
 
+	// NOTE the blockmap record alone moves the last block of the permanent
+	// database when it is loaded; it is written after all the other records
+	// are written.
+	lastbatch := pst.NewBatch()
+	defer lastbatch.Reset()
+
 	if err := tpst.Iter(nil, func(k, v []byte) (bool, error) {
+		if bytes.HasPrefix(k, leveldbKeyPrefixBlockMap[:]) {
+			lastbatch.Put(k, v)
+
+			return true, nil
+		}
+
 		if batch.Len() == db.batchlimit {
 			b := batch
 
@@ -396,6 +409,12 @@ func (db *LeveldbPermanent) mergeTempDatabaseFromLeveldb(ctx context.Context, te
 
 	if err := worker.Wait(); err != nil {
 		return e.Wrap(err)
+	}
+
+	if lastbatch.Len() > 0 {
+		if err := pst.Batch(lastbatch, nil); err != nil {
+			return e.Wrap(err)
+		}
 	}
 
 	_ = db.updateLast(
